@@ -24,7 +24,80 @@
   attribute parsing and case analysis of `Connector::from_element`, the element lookups, and the
   `<line>` / `<polyline>` construction at the end of `render`.
 -/
+/-
+  C13, whole-function theorems (Svgdx/Proofs/ConnWhole.lean) about the ELEMENT-LEVEL part of the connector
+  model (`Svgdx.Conn` in Svgdx/Geom/Connector.lean: `parseEnd`, `needBB`, `fromElement`, `lineElem`,
+  `pointsStr`, `render`, `isConnector`, `transmuteConnector` - the model of `Connector::from_element`,
+  `Connector::render` and the connector part of `SvgElement::transmute`).  C13 proves the routing functions,
+  C13x ties them to the regenerated code; these theorems say what the functions AROUND them do, for every
+  element table `c` and element `e`, under explicit decidable hypotheses.  `Sorted a` = non-decreasing
+  `AttrMap::priority`, `NodupKeys a` = distinct keys: the two invariants every `AttrMap::insert` restores.
+
+  (c) FRAME of `transmuteConnector c e`
+   * `transmute_nonconnector`: `isConnector e = false` -> the result is `.ok e`, unchanged;
+   * `transmute_unfold`, `transmute_ok_inv`: a connector's result is `(render c k).withoutAttr "edge-type"` for
+     the `k` of `fromElement c e (connTypeOf e)` (edge-type, else corner for polyline, else straight); any
+     error of `fromElement` becomes `InvalidData`, an error of `render` is passed on;
+   * `transmute_frame` (Sorted, NodupKeys, isConnector, result `.ok r`): `r.name` is `line` or `polyline`;
+     `r.attrs` filtered to the keys other than x1 y1 x2 y2 points IS `e.attrs` filtered to the keys other
+     than start / end / corner-offset / edge-type and those five - same entries, same values, same order;
+     `r.attrs` is again Sorted with distinct keys (the geometry attributes sit where `AttrMap::priority` puts
+     them: after id / href, before everything unlisted); classes, content box, emptiness are those of `e`;
+   * `transmute_drops`: `r.getAttr` of start, end, corner-offset, edge-type is `none`;
+   * `transmute_keeps`: every key that is none of these four and none of the five geometry keys has in `r`
+     the value it has in `e`;
+   * `withAttrsFrom_filter`, `filter_foldl_insert`, `insert_sorted_eq`, `pop_fst_eq_filter`: the general facts
+     about `with_attrs_from` / `AttrMap::insert` / `pop` behind it (closed form of insert on a sorted map).
+  (b) RENDER, one theorem per arm of `render c k`
+   * `render_straight`: `.ok (lineElem x1 y1 x2 y2 k.source)` with the two origins;
+   * `render_horizontal_boxes` / `render_vertical_boxes` (both ends elements with boxes `sb`, `eb`): the line
+     with y1 = y2 (x1 = x2) = `overlapMid` of the two boxes' Miny/Maxy (Minx/Maxx) - axis-parallel by
+     construction; `render_horizontal_point` / `render_vertical_point` (an end is a literal): the start
+     point's own y (x) on both ends; `render_hv_nobox`: a failing box lookup is the result, no line;
+   * `render_corner`: `(cornerPoints ...).map (cornerElem . k.source)`; `render_corner_polyline`: both ends
+     with a direction -> `<polyline points = pointsStr pts>` with 3 or 4 points (with `corner_rectilinear`
+     of C13: axis-parallel, perpendicular at both ends); `render_corner_line`: an end without direction ->
+     the `<line>` between the two points; `render_corner_u_ratio`: same direction on both ends and a ratio
+     offset -> `InvalidData`;
+   * `lineElem_getAttr`, `polyElem_getAttr`, `pointsStr_cons2`: x1 y1 x2 y2 are `fstr` of the coordinates and
+     `points` is "x y, x y, ..." PROVIDED the source element has no attribute of that name (see D1).
+  (a) ENDPOINTS of `fromElement c e ct`
+   * `fromElement_eq`: with start = s, end = t present, corner-offset absent or a length, `parseEnd c s = S`,
+     `parseEnd c t = T`: `fromElement` is `ends c ct S T` (the ten-arm case analysis, restated in
+     ConnWhole.lean and proved equal here for ALL S, T) wrapped with source = e minus the three attributes,
+     the looked-up elements, `ct` and the offset.  `Reads c e off S T` bundles these hypotheses;
+   * `ends_point_point`: both literal points verbatim, no direction;
+   * `ends_point_elem` / `ends_elem_point`: the literal verbatim; the other end at `bb.locspec loc`,
+     direction `locToDir loc`, `loc` = the named location, else `closestLoc bb <the literal> ct` - and then no
+     candidate of `edgeLocations ct` is closer (`closest_minimal`);
+   * `ends_named_named`: `sb.locspec l1`, `eb.locspec l2`, directions `locToDir l1`, `locToDir l2`;
+   * `ends_bare_bare`: the pair of `shortestLink sb eb ct`; no pair of candidates is closer (`shortest_minimal`);
+   * `ends_bare_named` / `ends_named_bare` (mixed): the named end at its location, the bare end at
+     `closestLoc` against THAT POINT (not `shortestLink`), minimal among the candidates;
+   * `ends_unresolved`: a reference that is not in the table -> `Other`; `ends_nobox_start` / `ends_nobox_end`:
+     a referenced element whose box lookup fails or is empty (`needBB_ok_iff`) -> that error (the other end
+     being fine) - never a default point; `fromElement_missing`: no start / no end -> `MissingAttribute`;
+   * `parseEnd_ref`: `#id[@loc]` / `^[@loc]` -> the table entry (possibly none) and the location;
+     `parseEnd_point_iff`: a literal point is exactly the first two numbers of the attribute.
+  Every family has an `example` on a concrete table (a (0,0)-(10,10), b (30,4)-(40,14), g without box) at
+  the end of ConnWhole.lean, evaluated by the kernel.
+
+  DEVIATIONS property / code found (model = code; both checked against target/debug/svgdx):
+   D1 `<line start="#a" end="#b" x1="99"/>` -> `<line x1="99" y1="5" x2="30" y2="4"/>`: `with_attrs_from` lets
+      the connector's own x1 / y1 / x2 / y2 / points override the computed end points, so the line is not
+      "drawn between points on the referenced elements' boxes".  Hence the hypothesis of `lineElem_getAttr`.
+   D2 `<line start="#a@b" end="#b@b" edge-type="h"/>` -> `<line x1="5" y1="7" x2="35" y2="7"/>`: with edge-type
+      h / v and two element ends the y (x) is the overlap middle EVEN WHEN a location is named, so the ends
+      are at (5,7) and (35,7), inside both boxes, not at the named locations (5,10), (35,14) (connector.rs
+      has a TODO on this).  `render_horizontal_boxes` states what the code does.
+  NOT proved: anything about `c.bb` (get_element_bbox) itself; the `ends` arms where BOTH boxes fail (the
+  order of the two lookups decides which error surfaces; it is fixed by `ends`, not restated); the position
+  of the geometry attributes relative to other LISTED priority keys beyond `Sorted r.attrs`; that elements
+  reaching `transmute` satisfy Sorted / NodupKeys (an `AttrMap` invariant, assumed); the correspondence of
+  the element-level model to connector.rs stays with the `doc/connector` test stream.
+-/
 import Svgdx.Proofs.ConnGen
+import Svgdx.Proofs.ConnWhole
 
 #print axioms Svgdx.Props.C13x.dirOf_bijective
 #print axioms Svgdx.Props.C13x.ctOf_bijective
@@ -36,3 +109,41 @@ import Svgdx.Proofs.ConnGen
 #print axioms Svgdx.Props.C13x.midpoint_default_eq_gen
 #print axioms Svgdx.Props.C13x.closestLoc_eq_gen
 #print axioms Svgdx.Props.C13x.shortestLink_eq_gen
+#print axioms Svgdx.Props.C13w.transmute_nonconnector
+#print axioms Svgdx.Props.C13w.transmute_unfold
+#print axioms Svgdx.Props.C13w.transmute_ok_inv
+#print axioms Svgdx.Props.C13w.transmute_frame
+#print axioms Svgdx.Props.C13w.transmute_drops
+#print axioms Svgdx.Props.C13w.transmute_keeps
+#print axioms Svgdx.Props.C13w.withAttrsFrom_filter
+#print axioms Svgdx.Props.C13w.filter_foldl_insert
+#print axioms Svgdx.Props.C13w.insert_sorted_eq
+#print axioms Svgdx.Props.C13w.pop_fst_eq_filter
+#print axioms Svgdx.Props.C13w.render_straight
+#print axioms Svgdx.Props.C13w.render_horizontal_boxes
+#print axioms Svgdx.Props.C13w.render_horizontal_point
+#print axioms Svgdx.Props.C13w.render_vertical_boxes
+#print axioms Svgdx.Props.C13w.render_vertical_point
+#print axioms Svgdx.Props.C13w.render_hv_nobox
+#print axioms Svgdx.Props.C13w.render_corner
+#print axioms Svgdx.Props.C13w.render_corner_polyline
+#print axioms Svgdx.Props.C13w.render_corner_line
+#print axioms Svgdx.Props.C13w.render_corner_u_ratio
+#print axioms Svgdx.Props.C13w.lineElem_getAttr
+#print axioms Svgdx.Props.C13w.polyElem_getAttr
+#print axioms Svgdx.Props.C13w.pointsStr_cons2
+#print axioms Svgdx.Props.C13w.fromElement_eq
+#print axioms Svgdx.Props.C13w.ends_point_point
+#print axioms Svgdx.Props.C13w.ends_point_elem
+#print axioms Svgdx.Props.C13w.ends_elem_point
+#print axioms Svgdx.Props.C13w.ends_named_named
+#print axioms Svgdx.Props.C13w.ends_bare_bare
+#print axioms Svgdx.Props.C13w.ends_bare_named
+#print axioms Svgdx.Props.C13w.ends_named_bare
+#print axioms Svgdx.Props.C13w.ends_unresolved
+#print axioms Svgdx.Props.C13w.ends_nobox_start
+#print axioms Svgdx.Props.C13w.ends_nobox_end
+#print axioms Svgdx.Props.C13w.fromElement_missing
+#print axioms Svgdx.Props.C13w.needBB_ok_iff
+#print axioms Svgdx.Props.C13w.parseEnd_ref
+#print axioms Svgdx.Props.C13w.parseEnd_point_iff
